@@ -114,12 +114,17 @@ def run_check(prop, tier="quick", replay=None):
             r = subprocess.run([os.path.join(VERIF, "selftest", "mutate.py"), "--prop", prop, "--quiet"], capture_output=True, text=True, timeout=3000)
             res_file = os.path.join(VERIF, "selftest", "results", prop + ".json")
             res = json.load(open(res_file)) if os.path.exists(res_file) else []
-            ctx.extra["self_test"] = {"mutants": len(res), "caught": sum(1 for x in res if x["status"].startswith("caught")),
-                                      "missed": [x["id"] for x in res if x["status"] == "MISSED"],
-                                      "skipped_or_invalid": [x["id"] for x in res if not x["status"].startswith("caught") and x["status"] != "MISSED"],
+            neg = [x for x in res if x["status"] in ("silent", "FALSE-ALARM")]
+            pos = [x for x in res if x not in neg]
+            ctx.extra["self_test"] = {"mutants": len(pos), "caught": sum(1 for x in pos if x["status"].startswith("caught")),
+                                      "missed": [x["id"] for x in pos if x["status"] == "MISSED"],
+                                      "skipped_or_invalid": [x["id"] for x in pos if not x["status"].startswith("caught") and x["status"] != "MISSED"],
+                                      "refactorings": len(neg), "refactorings_silent": sum(1 for x in neg if x["status"] == "silent"),
+                                      "false_alarms": [x["id"] for x in neg if x["status"] == "FALSE-ALARM"],
                                       "results": res}
             for x in res:
-                ctx.instances.append({"rule": "selftest", "what": "mutant %s: %s by %s" % (x["id"], x["status"], x.get("rules", [])[:3]), "site": "", "verdict": "holds" if x["status"].startswith("caught") else "selftest-" + x["status"]})
+                good = x["status"].startswith("caught") or x["status"] == "silent"
+                ctx.instances.append({"rule": "selftest", "what": "%s %s: %s %s" % ("refactoring" if x in neg else "mutant", x["id"], x["status"], x.get("rules", [])[:3]), "site": "", "verdict": "holds" if good else "selftest-" + x["status"]})
         except Exception as e:
             ctx.note("self-test could not run: %s" % e)
     known = load_known()
